@@ -495,11 +495,18 @@ def normalize_contraction_generic_tuple(red_op, bin_op, reduced_vars, terms):
         if (v.red_op is ops.null and bin_op is v.bin_op) or (
             bin_op is ops.null and v.red_op in (red_op, ops.null)
         ):
-            red_op = v.red_op if red_op is ops.null else red_op
-            bin_op = v.bin_op if bin_op is ops.null else bin_op
+            new_red_op = v.red_op if red_op is ops.null else red_op
+            new_bin_op = v.bin_op if bin_op is ops.null else bin_op
+            if not (
+                new_red_op is ops.null
+                or new_bin_op is ops.null
+                or new_red_op is new_bin_op
+                or (new_red_op, new_bin_op) in DISTRIBUTIVE_OPS
+            ):
+                continue  # fusing would create an invalid contraction
             new_terms = terms[:i] + v.terms + terms[i + 1 :]
             return Contraction(
-                red_op, bin_op, reduced_vars | v.reduced_vars, *new_terms
+                new_red_op, new_bin_op, reduced_vars | v.reduced_vars, *new_terms
             )
 
     # nothing more to do, reflect
